@@ -1,8 +1,34 @@
 //! Utility for UI XML generation.
 
 use super::XmlWriter;
+use quick_xml::escape;
 use quick_xml::events::{BytesStart, BytesText, Event};
 use std::io;
+
+/// Escapes text content which may be an arbitrary user string.
+///
+/// In addition to the markup characters, CR is escaped since it would otherwise be
+/// normalized to LF by XML parser.
+pub(super) fn escape_text(content: &str) -> BytesText<'_> {
+    let escaped = escape::escape(content);
+    if escaped.contains('\r') {
+        BytesText::from_escaped(escaped.replace('\r', "&#13;"))
+    } else {
+        BytesText::from_escaped(escaped)
+    }
+}
+
+/// Adds attribute which value may be an arbitrary user string.
+///
+/// In addition to the markup characters, white space characters other than blank are
+/// escaped since they would otherwise be normalized to blanks by XML parser.
+pub(super) fn push_escaped_attribute(tag: &mut BytesStart, key: &str, value: &str) {
+    let escaped = escape::escape(value)
+        .replace('\t', "&#9;")
+        .replace('\n', "&#10;")
+        .replace('\r', "&#13;");
+    tag.push_attribute((key.as_bytes(), escaped.as_bytes()));
+}
 
 pub(super) fn write_tagged_str<W, S, T>(
     writer: &mut XmlWriter<W>,
@@ -16,7 +42,7 @@ where
 {
     let tag = BytesStart::new(tag.as_ref());
     writer.write_event(Event::Start(tag.borrow()))?;
-    writer.write_event(Event::Text(BytesText::new(content.as_ref())))?;
+    writer.write_event(Event::Text(escape_text(content.as_ref())))?;
     writer.write_event(Event::End(tag.to_end()))?;
     Ok(())
 }
